@@ -295,7 +295,9 @@ def case_kernprof(c, root):
     # the script: imports nothing of ours; the functions live in the script file itself
     f0 = c['files'][0]
     path = info[f0['fname']][0]
-    src = open(path, encoding='utf-8').read().replace('def ', '@profile\ndef ')
+    src = open(path, encoding='utf-8').read()
+    if c.get('decorate', True):
+        src = src.replace('def ', '@profile\ndef ')
     calls = '\n'.join('%s(%d)' % (name, n) for (_k, name, n) in c['calls'])
     live = os.path.join(d, 'live.json')
     live_txt = os.path.join(d, 'live_%d.txt')
@@ -356,7 +358,9 @@ def case_explicit(c, root):
     head = ('from line_profiler import profile\nprofile.enable(output_prefix=%r)\n'
             'profile.write_config.update(%r)\nprofile.show_config.update(%r)\n' % (prefix, e['wc'], e['sc']))
     nhead = head.count('\n')
-    src = open(path, encoding='utf-8').read().replace('def ', '@profile\ndef ')
+    src = open(path, encoding='utf-8').read()
+    if c.get('decorate', True):
+        src = src.replace('def ', '@profile\ndef ')
     calls = '\n'.join('%s(%d)' % (name, n) for (_k, name, n) in c['calls'])
     live = os.path.join(d, 'live.json')
     tail = SCRIPT_TAIL % dict(prof_expr='profile._profile', live=live, live_kw=[], live_txt=os.path.join(d, 'l_%d.txt'))
